@@ -473,6 +473,19 @@ def agree(ctx):
                         name, {k: fmt(v) for k, v in ws.items()}, {k: fmt(v) for k, v in rs.items()}), w.where())
             continue
         ctx.ok(name, 'write~read', '%d event(s): %s' % (len(wev), fmt(list(ws.values())[0])), w.where())
+        # flags / tags decoded from the wire are tested by equality with the constant the writer emits, never by order
+        for fb in F.family(r.key):
+            for b in sorted(fb.live_blocks()):
+                for st in fb.stmts(b):
+                    rv = st['rv']
+                    if rv['k'] == 'bin' and rv['op'] in ('Lt', 'Le', 'Gt', 'Ge'):
+                        sl = backward_slice(fb, [rv['a'], rv['b']], follow_mutarg=False)
+                        if sl.has_call(r'Deserializer::<?.*read_leb128_u64$') and not sl.has_call(r'Deserializer::<?.*value$') \
+                                and (('c' in rv['a']) or ('c' in rv['b'])):
+                            ctx.bad(name, 'wire value tested by order (%s)' % rv['op'],
+                                    'read of %s decodes a flag / tag from the wire with an order comparison (%s, line %d) instead of equality '
+                                    'with the value the writer emits: values the writer never produces are accepted and 0 / 1 may be '
+                                    'conflated' % (name, rv['op'], st['ln']), fb.where(st['ln']))
         # tag constants: the constant written in a variant arm is the constant tested on the branch that reads the same data
         if len(ws) > 1 or len(rs) > 1:
             wt = sorted((tuple(strip_consts(s, False)), tuple(c for (_k, _t, _d, c) in s if c is not None)) for s in ws.values())
